@@ -52,7 +52,9 @@ def _worker(args):
         mod = mod_for(prop)
         facts = tree.all_facts(src or runner.DEFAULT_SRC)
         case = mod.make_case(seed, facts, index)
+        del runner.RUN_DIGESTS[:]
         out = mod.exec_case(case, facts, src=src)
+        out["digests"] = list(runner.RUN_DIGESTS)
         out["index"], out["seed"] = index, seed
         if out["violations"]:
             out["case"] = case
@@ -69,7 +71,9 @@ def _worker_case(args):
     try:
         mod = mod_for(prop)
         facts = tree.all_facts(src or runner.DEFAULT_SRC)
+        del runner.RUN_DIGESTS[:]
         out = mod.exec_case(case, facts, src=src)
+        out["digests"] = list(runner.RUN_DIGESTS)
         out["index"], out["seed"] = case.get("index", -1), case.get("seed", 0)
         if out["violations"]:
             out["case"] = case
